@@ -88,6 +88,26 @@ var c11Devs = []c11Dev{
 		`container c { leaf a { type int32; must "../b > 0"; must "../b < 9"; } leaf b { type int32; } }`,
 		`deviation /c/a { deviate delete { must "../b > 0"; } }`,
 		`container c { leaf a { type int32; must "../b < 9"; } leaf b { type int32; } }`},
+	{"delete two musts",
+		`container c { leaf a { type int32; must "../b > 0"; must "../b < 9"; must "../b != 5"; } leaf b { type int32; } }`,
+		`deviation /c/a { deviate delete { must "../b > 0"; must "../b != 5"; } }`,
+		`container c { leaf a { type int32; must "../b < 9"; } leaf b { type int32; } }`},
+	{"add two musts",
+		`container c { leaf a { type int32; } leaf b { type int32; } }`,
+		`deviation /c/a { deviate add { must "../b > 0"; must "../b < 9"; } }`,
+		`container c { leaf a { type int32; must "../b > 0"; must "../b < 9"; } leaf b { type int32; } }`},
+	{"delete two uniques",
+		`container c { list l { key "k"; unique "x"; unique "y"; unique "x y"; leaf k { type string; } leaf x { type string; } leaf y { type string; } } }`,
+		`deviation /c/l { deviate delete { unique "x"; unique "x y"; } }`,
+		`container c { list l { key "k"; unique "y"; leaf k { type string; } leaf x { type string; } leaf y { type string; } } }`},
+	{"two deviations on two targets",
+		`container c { leaf a { type int32; units "sec"; } leaf b { type int32; } leaf d { type string; } }`,
+		`deviation /c/a { deviate delete { units "sec"; } } deviation /c/b { deviate add { default "3"; } }`,
+		`container c { leaf a { type int32; } leaf b { type int32; default "3"; } leaf d { type string; } }`},
+	{"add and replace in one deviation",
+		`container c { leaf a { type int32; units "min"; } leaf b { type int32; } }`,
+		`deviation /c/a { deviate add { default "3"; } deviate replace { units "sec"; } }`,
+		`container c { leaf a { type int32; units "sec"; default "3"; } leaf b { type int32; } }`},
 	{"delete unique",
 		`container c { list l { key "k"; unique "x"; unique "y"; leaf k { type string; } leaf x { type string; } leaf y { type string; } } }`,
 		`deviation /c/l { deviate delete { unique "x"; } }`,
